@@ -19,6 +19,8 @@ type World struct {
 	tags      []TagDecl
 	writers   []WritersDecl
 	confined  []ConfinedDecl
+	rparens   map[*ssa.Function]map[token.Pos]token.Pos
+	callTexts map[*ssa.Function]map[token.Pos]string
 	cw        *confineWorld
 	repo      string
 	fset      *token.FileSet
@@ -802,4 +804,47 @@ func (w *World) typeKeyOf(t types.Type) string {
 		return n.Obj().Pkg().Name() + "." + n.Obj().Name()
 	}
 	return t.String()
+}
+
+// callRparens: for every call expression of the function's syntax, the position of its opening parenthesis (which is
+// the position go/ssa gives the call instruction) mapped to that of its closing one.
+func (w *World) callRparens(fn *ssa.Function) map[token.Pos]token.Pos {
+	if w.rparens == nil {
+		w.rparens = map[*ssa.Function]map[token.Pos]token.Pos{}
+	}
+	if m, ok := w.rparens[fn]; ok {
+		return m
+	}
+	m := map[token.Pos]token.Pos{}
+	if syn := fn.Syntax(); syn != nil {
+		ast.Inspect(syn, func(n ast.Node) bool {
+			if ce, ok := n.(*ast.CallExpr); ok {
+				m[ce.Lparen] = ce.Rparen
+			}
+			return true
+		})
+	}
+	w.rparens[fn] = m
+	return m
+}
+
+// callText: the source text of the call expression whose opening parenthesis is at pos.
+func (w *World) callText(fn *ssa.Function, pos token.Pos) string {
+	if w.callTexts == nil {
+		w.callTexts = map[*ssa.Function]map[token.Pos]string{}
+	}
+	m, ok := w.callTexts[fn]
+	if !ok {
+		m = map[token.Pos]string{}
+		if syn := fn.Syntax(); syn != nil {
+			ast.Inspect(syn, func(n ast.Node) bool {
+				if ce, ok := n.(*ast.CallExpr); ok {
+					m[ce.Lparen] = w.nodeText(ce)
+				}
+				return true
+			})
+		}
+		w.callTexts[fn] = m
+	}
+	return m[pos]
 }
